@@ -7,6 +7,7 @@ import (
 	"fmt"
 	"net/netip"
 	"strings"
+	"sync"
 
 	"github.com/anacrolix/generics"
 
@@ -202,21 +203,59 @@ func metricEngine(seed uint64, tier string, _ []string) {
 		var ops []string
 		ssVersions := []containers.AddrMaybeIdsByDistance{set}
 		ssLens := []int{0}
+		shadow := map[string]amiT{}
+		t160s := int160.FromByteArray(arr20(tg))
 		m := 1 + r.intn(14)
 		for j := 0; j < m; j++ {
 			e := pool[r.intn(len(pool))]
 			if r.intn(5) == 0 {
 				e = mkAmi(ips[r.intn(len(ips))], 1+r.intn(3), pick())
 			}
-			if r.intn(3) == 0 {
+			switch k := r.intn(9); {
+			case k < 2:
 				set = set.Delete(e)
+				delete(shadow, amiStr(e))
 				ops = append(ops, "-"+amiStr(e))
-			} else {
+			case k < 4 && set.Len() > 0:
+				// pop: delete what Next() hands out (drains the set now and then; it is refilled afterwards)
+				x := set.Next()
+				if _, in := shadow[amiStr(x)]; !in {
+					emit("oracle C18 sorted-set-next-returns-element-not-in-the-set target=%s ops=%s next=%s", hx(tg), strings.Join(ops, " "), amiStr(x))
+				}
+				set = set.Delete(x)
+				delete(shadow, amiStr(x))
+				ops = append(ops, "-"+amiStr(x))
+				if n%3 == 0 {
+					for set.Len() > 0 && len(ops) < 60 {
+						y := set.Next()
+						set = set.Delete(y)
+						delete(shadow, amiStr(y))
+						ops = append(ops, "-"+amiStr(y))
+					}
+				}
+			default:
 				set = set.Add(e)
+				shadow[amiStr(e)] = e
 				ops = append(ops, "+"+amiStr(e))
 			}
 			ssVersions = append(ssVersions, set)
 			ssLens = append(ssLens, set.Len())
+			// Len and Next after every operation: Next is in the set and nothing in the set is closer
+			if set.Len() != len(shadow) {
+				emit("oracle C18 sorted-set-len-wrong target=%s ops=%s len=%d distinct-elements=%d", hx(tg), strings.Join(ops, " "), set.Len(), len(shadow))
+			} else if set.Len() > 0 {
+				x := set.Next()
+				if _, in := shadow[amiStr(x)]; !in {
+					emit("oracle C18 sorted-set-next-returns-element-not-in-the-set target=%s ops=%s next=%s", hx(tg), strings.Join(ops, " "), amiStr(x))
+				} else {
+					for _, y := range shadow {
+						if y != x && y.CloserThan(x, t160s) {
+							emit("oracle C18 sorted-set-next-is-not-the-closest target=%s ops=%s next=%s closer=%s", hx(tg), strings.Join(ops, " "), amiStr(x), amiStr(y))
+							break
+						}
+					}
+				}
+			}
 		}
 		for vi := range ssVersions {
 			if ssVersions[vi].Len() != ssLens[vi] {
@@ -291,5 +330,62 @@ func metricEngine(seed uint64, tier string, _ []string) {
 			far = fmt.Sprintf("%s:%d:%s:%d", hx(f.Addr.Addr().AsSlice()), f.Addr.Port(), hx(f.ID[:]), f.Data.(int))
 		}
 		emit("knear %s %d %d %s => %d %d %s %s", hx(tg), k, len(pushes), strings.Join(pushes, " "), b2i(kn.Full()), kn.Len(), far, strings.Join(contents, " "))
+	}
+	// --- K nearest: copies of one value extended by several goroutines at once ---
+	// A Type is a value: goroutines that each push onto their own copy of a common base (which a lookup's snapshot of
+	// Closest() and the lookup itself do) must end up with what the same pushes give one after the other.
+	for n := 0; n < 6*scale; n++ {
+		tg := pick()
+		k := 8 + r.intn(57)
+		base := k_nearest_nodes.New(int160.FromByteArray(arr20(tg)), k)
+		mkElem := func(rr *rng, j int) k_nearest_nodes.Elem {
+			id := pick()
+			if rr.intn(2) == 0 {
+				// equal distances: one id at many addresses, so that the tie-break decides
+				id = append([]byte(nil), tg...)
+				id[19] ^= byte(rr.intn(3))
+			}
+			addr, _ := netip.AddrFromSlice(ips[rr.intn(len(ips))])
+			return k_nearest_nodes.Elem{Key: krpc.NodeInfoAddrPort{ID: arr20(id), Addr: krpc.NodeAddrPort{AddrPort: netip.AddrPortFrom(addr, uint16(1+rr.intn(400)))}}, Data: j}
+		}
+		for j := 0; j < k/2; j++ {
+			base = base.Push(mkElem(r, j))
+		}
+		const workers = 8
+		plans := make([][]k_nearest_nodes.Elem, workers)
+		for w := range plans {
+			for j := 0; j < 60; j++ {
+				plans[w] = append(plans[w], mkElem(r, 1000*w+j))
+			}
+		}
+		got := make([]string, workers)
+		var wg sync.WaitGroup
+		for w := 0; w < workers; w++ {
+			wg.Add(1)
+			go func(w int) {
+				defer wg.Done()
+				defer func() {
+					if p := recover(); p != nil {
+						got[w] = fmt.Sprint("panic: ", p)
+					}
+				}()
+				v := base
+				for _, e := range plans[w] {
+					v = v.Push(e)
+				}
+				got[w] = knStr(v)
+			}(w)
+		}
+		wg.Wait()
+		for w := 0; w < workers; w++ {
+			v := base
+			for _, e := range plans[w] {
+				v = v.Push(e)
+			}
+			if want := knStr(v); got[w] != want {
+				emit("oracle C18 knear-copies-pushed-concurrently-differ target=%s k=%d worker=%d alone=[%s] concurrent=[%s]", hx(tg), k, w, want, got[w])
+				break
+			}
+		}
 	}
 }
